@@ -50,6 +50,21 @@ def gen(rng, tier):
         cmds = ["newini 0", "set 0 string %s %s %s 0" % (enc(b"G" * n), enc(b"K" * n), enc(big)), "getall 0", "reread 1 0", "getall 1"]
         s = Scenario(cmds, tags=("setter",)); s.field, s.n = "setter", n
         out.append(s)
+    # PHYSICAL lines (newline included) of every length around the stdio buffer size and its doublings, for every kind of
+    # line, each followed by one more line that must stay a line of its own; an earlier long line first in half of them
+    for cap in (8192, 16384, 32768, 65536):
+        for total in range(cap - 4, cap + 3):
+            for kind in ("value", "comment", "section", "continuation", "key"):
+                body = total - 1
+                if kind == "value": line = b"k=" + b"v" * (body - 2)
+                elif kind == "comment": line = b"#" + b"c" * (body - 1)
+                elif kind == "section": line = b"[" + b"S" * (body - 2) + b"]"
+                elif kind == "continuation": line = b" " + b"w" * (body - 1)
+                else: line = b"K" * (body - 2) + b"=1"
+                pre = (b"first=" + b"x" * (cap // 2 + 5) + b"\n") if cap > 8192 else b""
+                content = pre + (b"a=1\n" if kind == "continuation" else b"") + line + b"\nsentinel=ok\nlast=1\n"
+                s = Scenario([gens.parse_cmd(0, b"/l/pl.conf", content, b"=", b"#"), "dump 0", "getall 0"], tags=("physical-line",)); s.field, s.n = "physical-line-" + kind, total
+                if cap <= 16384 or tier != "quick" or kind in ("value", "comment"): out.append(s)
     # names handed to getters and setters as ARGUMENTS, longer than the native stack the implementation runs with
     for n in ((262144,) if tier == "quick" else (262144, 1 << 20)):
         g, k = b"G" * n, b"K" * n
@@ -161,6 +176,9 @@ def oracle(s, ilines):
     if field in ("write-names", "write-pathmax"):
         if ilines[3] != "rc=0": return "econf_writeFile refuses a legal %s of %d bytes: %s" % ("file name" if field == "write-names" else "path", n, ilines[3])
         if not ilines[4].startswith("rc=0") or enc(b"written")[1:] not in ilines[5]: return "file written under a %d-byte name cannot be read back: %s %s" % (n, ilines[4][:80], ilines[5][:120])
+    if field.startswith("physical-line"):
+        if not ilines[0].startswith("rc=0"): return "a physical line of %d bytes (%s) makes the read fail: %s" % (n, field, ilines[0][:80])
+        if enc(b"sentinel")[1:] not in ilines[1] or enc(b"last")[1:] not in ilines[1]: return "the line behind a physical line of %d bytes (%s) is lost" % (n, field)
     if field == "twins":
         for idx in (1, 3, 5):
             for v in ([b"first", b"second", b"third", b"fourth"] + ([b"fifth"] if idx > 1 else [])):
